@@ -125,9 +125,18 @@ Definition roundtrip (t : ty) (xs : list bytes) : option (list bytes * bool * bo
 (* ---- foreach ---- *)
 (* cmdForEachDefault calls forEachInnerLoop once per element delivered by
    ReadArrayWithType; forEachInnerLoop returns before running the block when the
-   element converted to bytes is empty.  Result: the values the block saw. *)
+   element converted to bytes is empty.  foreach_bound: the values the variable
+   is bound to, one per run of the block. *)
 Definition foreach_bound (delivered : list bytes) : list bytes :=
   filter (fun x => match x with [] => false | _ => true end) delivered.
+
+(* What the block `{ out "[$e]" }` prints between the brackets for a bound
+   value: expanding $e into a string parameter drops one trailing \n and one
+   trailing \r (utils.CrLfTrimString in lang/expressions/variables.go) and goes
+   through []rune, which turns bytes that are not valid UTF-8 into U+FFFD. *)
+Definition expand_var (x : bytes) : bytes := sanitize (crlf_trim x).
+Definition foreach_seen (delivered : list bytes) : list bytes :=
+  map expand_var (foreach_bound delivered).
 
 (* ---- compact element literals of the cases files ---- *)
 Inductive chunk := Lit (b : bytes) | Rep (c n : N).
